@@ -31,7 +31,7 @@ def specAhead (sp : Spec) (min : Nat) : Obs × Spec :=
   else if min ≤ sp.rem.length then (.ok (sp.rem.take min), sp)
   else match sp.term with
     | .eof => (.short sp.rem.length, sp)
-    | .err => (.fatal, { sp with fatal := true })
+    | .err => (.fatal, ⟨[], sp.term, true⟩)
 
 /-- Well-formed source script: no zero-length blocks (a zero-length read is
 end-of-file by the callback contract and is modelled by `term`). -/
